@@ -478,7 +478,14 @@ func (v *VM) execute(context *Context) error {
 			}
 		case OpCallStack:
 			n := int(v.Instructions[v.PC].Args[ArgsNumArgs])
-			f := v.Stack[len(v.Stack)-1].Value.Interface().(Callable)
+			top := v.Stack[len(v.Stack)-1].Value
+			if !top.IsValid() || !top.CanInterface() {
+				return fmt.Errorf("can't call an invalid value")
+			}
+			f, ok := top.Interface().(Callable)
+			if !ok {
+				return fmt.Errorf("can't call a value of type %T", top.Interface())
+			}
 			v.Stack[len(v.Stack)-1].Value = reflect.ValueOf(n)
 			if args, err = f.CallFromStack(context, n, args); err != nil {
 				return err
